@@ -11,6 +11,7 @@ Naming discipline
 from __future__ import annotations
 
 import copy
+import re
 import random
 from typing import Any
 
@@ -32,6 +33,13 @@ PROP_VOCAB = [
 ]
 PATH_VOCAB = ["petId", "owner-id", "item_id", "Key", "sub2", "zone"]
 QUERY_VOCAB = ["q", "page", "pageSize", "sort-by", "filter.name", "include_deleted", "fromDate", "ids", "mode", "filter[tag]", "page size", "größe"]
+
+
+def is_http_token(name: str) -> bool:
+    """header field names and cookie names are RFC 7230 tokens: a query name such as 'größe' or 'filter[tag]' cannot move there"""
+    return bool(re.fullmatch(r"[A-Za-z0-9!#$%&'*+.^_`|~-]+", name))
+
+
 HEADER_VOCAB = ["X-Trace-Id", "x-request-key", "Api-Version", "XToken", "x_flag"]
 COOKIE_VOCAB = ["session", "csrf-token", "pref_lang", "trackId"]
 STR_ENUM_VALUES = ["red", "Green", "dark blue", "light-grey", "x1", "1st", "teal", "MAUVE", "°C", "naïve"]
@@ -817,7 +825,7 @@ class DocGen:
                     if locs:
                         src = r.choice(locs)
                         other = r.choice([x for x in ("query", "header", "cookie") if x != src["in"]])
-                        if other != "header" or self.on("header_params"):
+                        if (other != "header" or self.on("header_params")) and (other == "query" or is_http_token(src["name"])):
                             # (header names are case-insensitive: "mode" and "Mode" in headers would be one field)
                             if not any(p["name"].lower() == src["name"].lower() and p["in"] == other for p in params):
                                 params.append(self.make_param(src["name"], other))
@@ -905,7 +913,7 @@ class DocGen:
                     if cands:
                         src = r.choice(cands)
                         locs = ["query"] + (["header"] if self.on("header_params") else []) + (["cookie"] if self.on("cookie_params") else [])
-                        locs = [x for x in locs if x != src["in"]]
+                        locs = [x for x in locs if x != src["in"] and (x == "query" or is_http_token(src["name"]))]
                         if locs:
                             other = r.choice(locs)
                             op_level = [comp_params.get(q["$ref"].rsplit("/", 1)[1], q) if "$ref" in q else q
